@@ -124,7 +124,5 @@ Proof.
   - intros x H. vm_compute in H. inversion H; subst. split; [reflexivity|]. intro E. vm_compute in E. discriminate.
   - intros i x n Hx NC Hn. exfalso.
     destruct i as [|i]; [|destruct i; vm_compute in Hx; discriminate]. vm_compute in Hx. inversion Hx; subst. vm_compute in Hn. exact Hn.
-  - vm_compute. intros [].
-  - intros _ hd i x HD Hx L. vm_compute in HD. inversion HD; subst hd.
-    destruct i as [|i]; [|destruct i; vm_compute in Hx; discriminate]. vm_compute in Hx. inversion Hx; subst. discriminate L.
+  - split; [vm_compute; intros []|]. intros E. discriminate E.
 Qed.
